@@ -927,6 +927,9 @@ func (a *Analysis) statusGate(upd *ssa.Function) {
 		good := false
 		n := 0
 		for _, ret := range returnsOf(f) {
+			if !first.Dominates(ret.Block()) {
+				continue // taken before the status is looked at
+			}
 			reach, seen := res.Reach[ret.Block()]
 			if !seen || !reach.Contains(200) {
 				continue
@@ -934,7 +937,7 @@ func (a *Analysis) statusGate(upd *ssa.Function) {
 			n++
 			fails := false
 			if k := len(ret.Results); k > 0 && isErrorType(ret.Results[k-1].Type()) {
-				switch a.classifyErr(ret.Results[k-1]).Kind {
+				switch a.classifyErr(returnedValue(ret, k-1)).Kind {
 				case "fresh", "sentinel", "wrap":
 					fails = true
 				}
@@ -977,6 +980,35 @@ func (a *Analysis) ruleW2(upd *ssa.Function) {
 	for _, ev := range e.Events {
 		if ev.Status == Undecided && (ev.Rule == "P5" || ev.Rule == "U" || ev.Rule == "X") {
 			r.Unk("W2", fk+"/evaluation", a.P.InstrPos(ev.Instr), "", "the update function is not fully evaluated: %s", ev.Msg)
+		}
+	}
+	// package-level variables of the generator the evaluation read as their declaration leaves
+	// them (an option and its default, a table): nothing else may write them
+	{
+		var gls []*ssa.Global
+		for gl := range e.Relied {
+			if gl.Pkg == a.P.Gen {
+				gls = append(gls, gl)
+			}
+		}
+		sort.Slice(gls, func(i, j int) bool { return gls[i].Name() < gls[j].Name() })
+		for _, gl := range gls {
+			key := fk + "/var/" + gl.Name()
+			okV := true
+			for _, w := range a.Ef.Writes[gl] {
+				if w.Test || (w.Synth && w.Kind == "store") {
+					continue
+				}
+				okV = false
+				r.Bad("W2", key, a.P.InstrPos(w.Instr), "", "the generator is judged with %s as its declaration leaves it, but %s writes it (%s)", gl.Name(), fnKey(w.Fn), w.How)
+			}
+			for _, why := range a.Ef.Escapes[gl] {
+				okV = false
+				r.Unk("W2", key, a.P.Pos(gl.Pos()), "", "the generator is judged with %s as its declaration leaves it, but what it refers to leaves the analysed code: %s", gl.Name(), why)
+			}
+			if okV {
+				r.OK("W2", key, a.P.Pos(gl.Pos()), "", "%s is written by its declaration only", gl.Name())
+			}
 		}
 	}
 	isExec := func(n string) bool {
